@@ -33,6 +33,9 @@ def p2p_build(rng, d):
         data[4] = 0xFF if d["ovf"] else rng.randrange(0, 0xFF)
         if bytes(data[4:9]) in (PING, ACK):
             data[8] = 0
+        if cls in ("reg", "dmr", "rdac") and not d["ovf"] and rng.random() < 0.25:
+            # a command is a command whatever its octets 4..8 are: they may look like a keep-alive or like an acknowledgement
+            data[4:9] = rng.choice([PING, ACK])
         if cls == "ack":
             data[4:9] = ACK
             data[20] = rng.choice([0x00, 0x13, 0x7F])
